@@ -117,3 +117,106 @@ func H_C14_setint() {
 	vAssert("C08.inv", invOK(z))
 	vReach("end")
 }
+
+// H_C14_rat: Rat returns exactly x (numerator/denominator compared by
+// cross-multiplication; big.Rat's gcd reduction is modelled as the identity,
+// which leaves the value unchanged), with accuracy Exact; zero gives 0/1,
+// infinities give nil and the sign as accuracy. x is left unchanged.
+func H_C14_rat() {
+	fx := vCfgOr("fx", fFinite)
+	w := vCfgOr("w", 1)
+	x := vDec("x", fx, w, 0, 0)
+	xs := snap(x)
+	if fx == fFinite {
+		vAssume(int(x.exp) == vCfg("e"))
+	}
+	var z *big.Rat
+	if vCfgOr("dirty", 0) == 1 {
+		// a receiver that held another fraction before
+		z = new(big.Rat).SetFrac64(int64(vI64("z.num", -1000, 1000)), 7)
+	}
+	var r *big.Rat
+	var acc Accuracy
+	k := vCatch(func() { r, acc = x.Rat(z) })
+	vAssert("C04.nopanic", k == 0)
+	vAssert("C09.operand", unchanged(x, xs))
+	if k != 0 {
+		return
+	}
+	switch fx {
+	case fZero:
+		vAssert("C14.rat", vAnd(r != nil, acc == Exact))
+		if r != nil {
+			vAssert("C14.rat.zero", r.Num().Sign() == 0)
+		}
+	case fInf:
+		vAssert("C14.rat", vAnd(r == nil, acc == makeAcc(x.neg)))
+	default:
+		vAssert("C14.rat", vAnd(r != nil, acc == Exact))
+		if r == nil {
+			return
+		}
+		num, den := r.Num(), r.Denom()
+		N, D := sFromBinWords(num.Bits()), sFromBinWords(den.Bits())
+		M := specMant(x)
+		e := vCfg("e") - w*_DW
+		var ok bool
+		if e >= 0 {
+			ok = sEq(N, sMul(sMulPow10(M, e), D))
+		} else {
+			ok = sEq(sMulPow10(N, -e), sMul(M, D))
+		}
+		vAssert("C14.rat.value", vAnd(ok, vAnd(!sIsZero(D), den.Sign() > 0)))
+		vAssert("C14.rat.sign", (num.Sign() < 0) == x.neg)
+	}
+	vReach("end")
+}
+
+// H_C14_setrat: SetRat(a/b) == a/b rounded once (precision p; or exactly, at
+// the precision SetRat chooses, when p is 0 and the quotient terminates),
+// for fractions with da-digit numerators and db-digit denominators.
+func H_C14_setrat() {
+	p, da, db := vCfg("p"), vCfg("da"), vCfg("db")
+	lo := func(d int) uint64 { return pow10tab[d-1] }
+	hi := func(d int) uint64 { return pow10tab[d-1]*9 + (pow10tab[d-1] - 1) }
+	a := vU64("a", lo(da), hi(da))
+	b := vU64("b", lo(db), hi(db))
+	neg := vBool("neg")
+	q := new(big.Rat).SetFrac(new(big.Int).SetUint64(a), new(big.Int).SetUint64(b))
+	if neg {
+		q.Neg(q)
+	}
+	z := vDec("z", vCfgOr("zf", fZero), 1, 0, maxInt(p, 1))
+	if p == 0 {
+		z.prec = 0
+	}
+	mode := z.mode
+	k := vCatch(func() { z.SetRat(q) })
+	vAssert("C04.nopanic", k == 0)
+	if k != 0 {
+		return
+	}
+	vAssert("C08.inv", invOK(z))
+	vAssert("C09.mode", z.mode == mode)
+	if p == 0 {
+		// precision chosen by SetRat; the value must still be a/b rounded once to it
+		p = int(vConcI(int64(z.prec)))
+		vAssert("C14.setrat.prec", p >= 1)
+		if p < 1 {
+			return
+		}
+	} else {
+		vAssert("C09.prec", z.prec == uint32(p))
+	}
+	// a/b scaled so that the integer quotient has at least p+1 digits
+	sh := p + 1 + db - da + 1
+	if sh < 0 {
+		sh = 0
+	}
+	A := sMulPow10(sU(a), sh)
+	B := sU(b)
+	Q, R := sDiv(A, B), sMod(A, B)
+	r := roundRef(Q, !sIsZero(R), int64(-sh), p, mode, neg, 1, da+sh)
+	refMatch("C14.value", "C02.acc", z, r, neg)
+	vReach("end")
+}
